@@ -87,6 +87,8 @@ def cases(tier):
            [f[:i] + a + f[i + 1:] for f in ("GAV", "KDE") for i in range(3) for a in letters]
     for i in range(0, len(prot), 60):
         yield dict(kind="prot", seqs=prot[i:i + 60], tier=tier)
+    yield dict(kind="dress", alpha="DNA", tier=tier)
+    yield dict(kind="dress", alpha="RNA", tier=tier)
     yield dict(kind="txt", tier=tier)
     yield dict(kind="seqopt", tier=tier)
     for lv, bf in itertools.product((1, 2, 3), (1, 2, 3)):
@@ -119,6 +121,53 @@ def check_nuc(case):
                         viols.append(dict(assertion="residue-graph-as-specified", tags=[f"fmt:{fmt}"],
                                           message=f"{fmt} {kind} {seq!r} lines {parts}: got {got} expected {want}", case=case1, detail={}))
             keys.append(f"{kind}:{seq}")
+    return viols, evals, keys
+
+
+def check_dress(case):
+    """the same sequences in files with everything the formats allow around them: further records, blank lines, trailing
+    blanks, Windows line ends, comments after the sequence, the terminator on its own line"""
+    viols, evals, keys = [], 0, []
+    kind = case["alpha"]
+    with H.tempdir() as d:
+        for L in (2, 3):
+            for seq in map("".join, itertools.product("ACGT", repeat=L)):
+                h, t = seq[:1], seq[1:]
+                variants = [
+                    ("fasta", "second-record", f">seq1 {kind}\n{seq}\n>seq2 {kind}\nGGGG\n", False),
+                    ("fasta", "second-record-other-kind", f">seq1 {kind}\n{seq}\n>seq2 PROTEIN\nKKKK\n", False),
+                    ("fasta", "trailing-blank-lines", f">seq1 {kind}\n{seq}\n\n\n", False),
+                    ("fasta", "blank-line-inside", f">seq1 {kind}\n{h}\n\n{t}\n", False),
+                    ("fasta", "trailing-spaces", f">seq1 {kind}\n{h}  \n{t} \n", False),
+                    ("fasta", "crlf", f">seq1 {kind}\r\n{h}\r\n{t}\r\n", False),
+                    ("fasta", "no-final-newline", f">seq1 {kind}\n{seq}", False),
+                    ("ig", "second-record", f"; {kind}\nT1\n{seq}1\n; {kind}\nT2\nGGGG1\n", False),
+                    ("ig", "second-record-circular-first", f"; {kind}\nT1\n{seq}2\n; {kind}\nT2\nGGGG1\n", True),
+                    ("ig", "terminator-own-line", f"; {kind}\nT1\n{seq}\n1\n", False),
+                    ("ig", "terminator-own-line-circular", f"; {kind}\nT1\n{h}\n{t}\n2\n", True),
+                    ("ig", "comment-after-sequence", f"; {kind}\nT1\n{h} ; first part\n{t}1 ; done\n", False),
+                    ("ig", "blank-line-inside", f"; {kind}\nT1\n{h}\n\n{t}1\n", False),
+                    ("ig", "crlf", f"; {kind}\r\nT1\r\n{h}\r\n{t}1\r\n", False),
+                    ("ig", "title-ends-in-2-linear", f"; {kind}\nchr2\n{seq}1\n", False),
+                    ("ig", "title-ends-in-1-circular", f"; {kind}\nSEQ1\n{seq}2\n", True),
+                    ("ig", "title-is-a-digit", f"; {kind}\n1\n{seq}1\n", False),
+                    ("ig", "three-comments", f"; one\n; two {kind}\n; three\nT1\n{seq}1\n", False),
+                    ("ig", "no-final-newline", f"; {kind}\nT1\n{seq}2", True),
+                ]
+                for fmt, dress, text, circ in variants:
+                    evals += 1
+                    case1 = dict(kind="dress1", alpha=kind, fmt=fmt, dress=dress, text=text, seq=seq, circ=circ)
+                    try:
+                        mm = from_file(d, "x." + fmt, text)
+                    except Exception as exc:  # noqa
+                        viols.append(crash_violation(exc, case1, assertion="sequence-file-readable", tags=[f"dress:{dress}"]))
+                        continue
+                    want = expect_linear(ref_names(kind, seq, circ), circ)
+                    got = graph_view(mm)
+                    if got != want and len(viols) < 20:
+                        viols.append(dict(assertion="residue-graph-as-specified", tags=[f"fmt:{fmt}", f"dress:{dress}"],
+                                          message=f"{fmt} {kind} {seq!r} ({dress}): got {got} expected {want}", case=case1, detail={}))
+                    keys.append(f"dress:{kind}:{fmt}:{dress}:{seq}")
     return viols, evals, keys
 
 
@@ -390,15 +439,15 @@ def check_badletters(case):
 
 def run_case(case):
     kind = case["kind"]
-    if kind in ("nuc1", "prot1", "txt1"):
+    if kind in ("nuc1", "prot1", "txt1", "dress1"):
         with H.tempdir() as d:
-            mm = from_file(d, case.get("fname", "s.txt"), case["text"])
+            mm = from_file(d, case.get("fname", ("x." + case["fmt"]) if kind == "dress1" else "s.txt"), case["text"])
         want = expect_linear(ref_names(case.get("alpha", "AA"), case["seq"], case.get("circ", False)) if kind != "txt1" else case["seq"],
                              case.get("circ", False))
         v = [] if graph_view(mm) == want else [dict(assertion="residue-graph-as-specified", tags=[], message=f"{graph_view(mm)} != {want}", case=case, detail={})]
         return dict(evals=1, keys=[], violations=v, stats={})
     fn = {"nuc": check_nuc, "prot": check_prot, "txt": check_txt, "seqopt": check_seqopt, "genseq": check_genseq, "genseqfile": check_genseq_file,
-          "badletters": check_badletters}.get(kind)
+          "badletters": check_badletters, "dress": check_dress}.get(kind)
     if fn is None:
         return dict(evals=0, keys=[], violations=[], stats={})
     v, evals, keys = fn(case)
